@@ -73,7 +73,8 @@ impl MaslLibrary {
     ///
     /// # Errors
     /// Returns an error if the provided `modules` vector is empty or contains more than
-    /// [u16::MAX] elements.
+    /// [u16::MAX] elements, or if the path of a module is not of the form
+    /// `<namespace>::<module path>`.
     pub fn new(
         namespace: LibraryNamespace,
         version: Version,
@@ -89,6 +90,13 @@ impl MaslLibrary {
                 modules.len(),
                 MAX_MODULES,
             ));
+        }
+
+        // module paths are serialized relative to the library namespace: every module must be
+        // located under the namespace and must have a name of its own
+        for module in modules.iter() {
+            module.check_namespace(&namespace)?;
+            LibraryPath::strip_first(&module.path)?;
         }
 
         if dependencies.len() > MAX_DEPENDENCIES {
